@@ -1,7 +1,7 @@
 (* C16/Property.v — property theorems only. *)
 From Coq Require Import String List Bool.
-From Verif Require Import Base.Str Base.Py Base.Py2 C16.Model C16.Spec C16.Classes C16.Proofs C16.Source2.
-From VerifGen Require Import C16Src2.
+From Verif Require Import Base.Str Base.Py Base.Py2 C16.Model C16.Spec C16.Classes C16.Proofs C16.Source2 C16.Options.
+From VerifGen Require Import C16Src2 C16Tables.
 Import ListNotations.
 
 (* C16, whole statement: for every flag combination, certificate source, identity and advice outside the one open
@@ -16,6 +16,46 @@ Print Assumptions c16_spec.
 Theorem c16_spec_reflect : forall x o, spec_b x o = true <-> spec x o.
 Proof. exact spec_b_iff. Qed.
 Print Assumptions c16_spec_reflect.
+
+(* the same for calls through the public API (Server.create_authn_response / create_authn_request_response) with each
+   of sign_response, sign_assertion, encrypt_assertion, encrypted_advice_attributes, encrypt_assertion_self_contained
+   given by argument, given as None, or not given, and present or absent in the IdP configuration: the property read on
+   what the call REQUESTS (argument, else configuration, else documented default) holds of what the model produces
+   from what the code GATHERS (signature defaults of create_authn_response, then gather_authn_response_args) *)
+Theorem c16_spec_call : forall k ts, guard (requested k) -> spec_call k (model_obs (gather k) ts).
+Proof. exact spec_call_holds. Qed.
+Print Assumptions c16_spec_call.
+
+(* a request for assertion encryption that is made in the IdP configuration only (or per call) is honoured: whenever a
+   Response comes out its assertion is encrypted for a usable certificate of the recipient *)
+Theorem c16_config_request_encrypts : forall x s w,
+  i_entry x = Server -> o_arg (s_ea s) <> Passed false -> (o_arg (s_ea s) = Passed true \/ o_cfg (s_ea s) = Some true) ->
+  avail (rcpt_main x) -> idp_call (x, Some s) = Wire w ->
+  exists c a, w_top w = TopEnc c a /\ In c (rcpt_main x) /\ usable c.
+Proof. exact config_request_encrypts. Qed.
+Print Assumptions c16_config_request_encrypts.
+
+(* the statement is sensitive to the defaults: were the default of encrypt_assertion in the signature of
+   create_authn_response False instead of None, a request made in the configuration would be lost and the property
+   would fail on a concrete call (which the code as modelled satisfies) *)
+Theorem c16_signature_default_matters :
+  ea (requested k_config_only) = true /\ avail (rcpt_main (requested k_config_only))
+  /\ spec_call k_config_only (model_obs (gather k_config_only) ts0)
+  /\ ~ spec_call k_config_only (model_obs (gather_with defaults_ea_false k_config_only) ts0).
+Proof. exact signature_default_matters. Qed.
+Print Assumptions c16_signature_default_matters.
+
+Open Scope string_scope.
+(* the defaults, the precedence chain, the configuration context and the options the wrapper passes on are those of the
+   source text as it reads now (coq/gen/C16Tables.v, regenerated on every run) *)
+Theorem c16_option_defaults_from_source :
+  create_authn_response_sig_defaults = combine option_names (map sig_default (optdefs code_defaults))
+  /\ gather_param_defaults = combine option_names (map param_default (optdefs code_defaults))
+  /\ gather_config_context = "idp"
+  /\ wrapper_forwards = ["sign_response"; "sign_assertion"]
+  /\ (forall d o, chain_value gather_precedence (kw_value d (o_arg o)) (o_cfg o) (param_default d) = Some (pick d o)).
+Proof. exact option_defaults_from_source. Qed.
+Print Assumptions c16_option_defaults_from_source.
 
 (* confidentiality, symbolic: no secret occurs outside an encryption for a certificate of the recipient *)
 Theorem c16_conf : forall x w, guard x -> idp x = Wire w ->
